@@ -27,6 +27,9 @@ type channel struct {
 	cancel context.CancelFunc
 	id     string
 	sub    coreiface.PubSubSubscription
+
+	// users holds the contexts of the callers that asked for this channel and are not done
+	users map[context.Context]struct{}
 }
 
 type channels struct {
@@ -45,31 +48,56 @@ func (c *channels) Connect(ctx context.Context, target peer.ID) error {
 	id := c.getChannelID(target)
 
 	c.muSubs.Lock()
-	if _, ok := c.subs[target]; !ok {
+	ch, ok := c.subs[target]
+	if !ok {
 		c.logger.Debug("subscribing to", zap.String("topic", id))
 
-		sub, err := c.ipfs.PubSub().Subscribe(ctx, id, options.PubSub.Discover(true))
+		// the subscription serves every caller that talks to this peer (every store of the
+		// instance): it must not end with the one that happened to ask first
+		sub, err := c.ipfs.PubSub().Subscribe(c.ctx, id, options.PubSub.Discover(true))
 		if err != nil {
 			c.muSubs.Unlock()
 			return fmt.Errorf("unable to subscribe to pubsub: %w", err)
 		}
 
-		ctx, cancel := context.WithCancel(ctx)
+		subCtx, cancel := context.WithCancel(c.ctx)
 
-		c.subs[target] = &channel{
-			ctx:    ctx,
+		ch = &channel{
+			ctx:    subCtx,
 			cancel: cancel,
 			sub:    sub,
 			id:     id,
+			users:  map[context.Context]struct{}{},
 		}
+		c.subs[target] = ch
+
 		go func() {
-			c.monitorTopic(ctx, sub, target)
+			c.monitorTopic(subCtx, sub, target)
 
 			// if monitor topic is done, remove target from cache
 			c.muSubs.Lock()
-			delete(c.subs, target)
+			if c.subs[target] == ch {
+				delete(c.subs, target)
+			}
 			c.muSubs.Unlock()
 		}()
+	}
+
+	// it ends with the last of its callers
+	if _, known := ch.users[ctx]; !known {
+		ch.users[ctx] = struct{}{}
+		context.AfterFunc(ctx, func() {
+			c.muSubs.Lock()
+			delete(ch.users, ctx)
+			if len(ch.users) == 0 {
+				ch.cancel()
+				_ = ch.sub.Close()
+				if c.subs[target] == ch {
+					delete(c.subs, target)
+				}
+			}
+			c.muSubs.Unlock()
+		})
 	}
 	c.muSubs.Unlock()
 
